@@ -727,16 +727,36 @@ def _emptiness_tests(nv):
     return out
 
 
+def _array_buffers(lib):
+    """[(buffer adt, cursor adt)]: xt structs holding a `[u8; N]` array and two usize cursors, the cursors either in the
+    struct itself or in one nested xt struct of exactly two usize fields."""
+    out = []
+    for p_, a_ in lib.adts.items():
+        if a_["crate"] != "xt" or a_["kind"] != "struct":
+            continue
+        fs_ = a_["variants"][0]["fields"]
+        if not any(f_["ty"].startswith("[u8; ") for f_ in fs_):
+            continue
+        if sum(1 for f_ in fs_ if f_["ty"] == "usize") == 2:
+            out.append((p_, p_))
+            continue
+        for f_ in fs_:
+            c_ = lib.adts.get(f_["ty"].split("<")[0])
+            if c_ and c_["crate"] == "xt" and c_["kind"] == "struct" and len(c_["variants"][0]["fields"]) == 2 and all(x_["ty"] == "usize" for x_ in c_["variants"][0]["fields"]):
+                out.append((p_, f_["ty"].split("<")[0]))
+    return out
+
+
 def array_buffer_window(lib):
-    """(adt path, pos field, len field) of xt's fixed array buffer (a struct with a [u8; N] field and two usize cursors
-    whose unread window is `buf[pos..len]`), or (None, None, None)."""
-    ab = [p for p, a in lib.adts.items() if a["crate"] == "xt" and a["kind"] == "struct" and any(f["ty"].startswith("[u8; ") for f in a["variants"][0]["fields"]) and sum(1 for f in a["variants"][0]["fields"] if f["ty"] == "usize") == 2]
-    if len(ab) != 1:
-        return None, None, None
-    adt = ab[0]
+    """(buffer adt, pos field, len field, cursor adt) of xt's fixed array buffer (a struct with a [u8; N] field and two
+    usize cursors whose unread window is `buf[pos..len]`), or (None, None, None, None)."""
+    pairs = _array_buffers(lib)
+    if len(pairs) != 1:
+        return None, None, None, None
+    adt, cadt = pairs[0]
     pos_f = len_f = None
     for b in lib.bodies:
-        if b.raw.get("impl_self_adt") != adt:
+        if b.raw.get("impl_self_adt") not in (adt, cadt):
             continue
         for bi, blk in enumerate(b.blocks):
             for s in blk["stmts"]:
@@ -744,10 +764,10 @@ def array_buffer_window(lib):
                     fs = []
                     for o in s["rv"]["ops"]:
                         tr = trace(b, o)
-                        fs.append(next((st_[1] for st_ in tr.steps if st_[0] == "field" and st_[2] == adt), None))
+                        fs.append(next((st_[1] for st_ in tr.steps if st_[0] == "field" and st_[2] == cadt), None))
                     if all(fs) and fs[0] != fs[1]:
                         pos_f, len_f = fs
-    return adt, pos_f, len_f
+    return adt, pos_f, len_f, cadt
 
 
 @rule("R04.2", 8, "re-verified guards of the anchored panic sites (size calculator bounds, length reader, capture reader slicing, buffer encapsulation)", ["C04"])
@@ -890,26 +910,35 @@ def r04_2(ctx):
                     n_ok += 1
                 ctx.ob(f"G6:slice-bound:{n}", bool(why) or from_read, site(sb, bb), (why or "bound is the length the source reported for a read into this very slice") if (why or from_read) else "slice bound of unknown provenance: neither min(buf.len(), ..) of the sliced buffer nor the source's reported read length")
         ctx.ob("G6:prefix_size-is-min-with-buf.len", n >= 1 and n_ok == n, site(b), f"{n} slicing(s) of the caller's buffer, each bounded ({by_min} by min(buf.len(), ..))" if n >= 1 and n_ok == n else f"{n} slicing(s) of the caller's buffer, {n_ok} with a bound: the copy of the captured prefix is no longer limited to the caller's buffer")
-    # G7: ArrayBuffer fields are written only by its own methods
-    ab = [p for p, a in lib.adts.items() if a["crate"] == "xt" and a["kind"] == "struct" and any(f["ty"].startswith("[u8; ") for f in a["variants"][0]["fields"]) and sum(1 for f in a["variants"][0]["fields"] if f["ty"] == "usize") == 2]
+    # G7: ArrayBuffer fields are written only by its own methods. The two cursors live in the buffer struct itself, or
+    # in a small struct of their own that the buffer holds (`bounds: Unread { pos, len }`)
+    ab_pairs = _array_buffers(lib)
+    ab = [x[0] for x in ab_pairs]
     ctx.ob("G7:array-buffer-found", len(ab) == 1, "lib", f"fixed buffer type(s): {ab}")
-    for adt in ab:
+    for adt, cadt in ab_pairs:
+        owners = {adt, cadt}
         bad = []
         nw = 0
         for b in lib.bodies:
             for bi, blk in enumerate(b.blocks):
                 for s in blk["stmts"]:
-                    if s["k"] == "assign" and s["p"]["pr"] and s["p"]["pr"][-1]["k"] == "field" and s["p"]["pr"][-1].get("adt") == adt and s["p"]["pr"][-1]["ty"] == "usize":
+                    if s["k"] == "assign" and s["p"]["pr"] and s["p"]["pr"][-1]["k"] == "field" and s["p"]["pr"][-1].get("adt") == cadt and s["p"]["pr"][-1]["ty"] == "usize":
                         nw += 1
-                        if b.raw.get("impl_self_adt") != adt:
+                        if b.raw.get("impl_self_adt") not in owners:
                             bad.append(b.id)
+                    elif s["k"] == "assign" and s["rv"]["k"] == "aggregate" and s["rv"].get("adt") == cadt and cadt != adt:
+                        # the cursor pair built as a whole (`Unread { pos: 0, len }`): a write of both
+                        nw += 2
+                        if b.raw.get("impl_self_adt") not in owners:
+                            bad.append(b.id)
+                        pidx = [i for i, f_ in enumerate(s["rv"].get("fields", [])) if lib.adts[cadt]["variants"][0]["fields"][i]["ty"] == "usize"] if False else None
         ctx.ob("G7:cursor-fields-encapsulated", not bad and nw >= 3, adt, f"{nw} write(s) to the pos/len fields, all inside the type's own methods" if not bad else f"pos/len written from outside: {bad}")
         # representation invariant pos <= len behind `&buf[pos..len]`: which field is which is read off
         # the Range that slices the array; `len` may grow additively, any other store into `len` (a reset)
         # must come with `pos = 0` on the same path
         pos_f = len_f = None
         for b in lib.bodies:
-            if b.raw.get("impl_self_adt") != adt:
+            if b.raw.get("impl_self_adt") not in owners:
                 continue
             for bi, blk in enumerate(b.blocks):
                 for s in blk["stmts"]:
@@ -917,42 +946,51 @@ def r04_2(ctx):
                         fs = []
                         for o in s["rv"]["ops"]:
                             tr = trace(b, o)
-                            fs.append(next((st_[1] for st_ in tr.steps if st_[0] == "field" and st_[2] == adt), None))
+                            fs.append(next((st_[1] for st_ in tr.steps if st_[0] == "field" and st_[2] == cadt), None))
                         if all(fs) and fs[0] != fs[1]:
                             pos_f, len_f = fs
         ctx.ob("G7:pos-len-identified", pos_f is not None, adt, f"unread window is buf[{pos_f}..{len_f}]")
+        if pos_f is not None and cadt != adt:
+            # a cursor pair built as a whole starts at pos = 0 (so pos <= len whatever len is)
+            for b in lib.bodies:
+                for bi, blk in enumerate(b.blocks):
+                    for s in blk["stmts"]:
+                        if s["k"] == "assign" and s["rv"]["k"] == "aggregate" and s["rv"].get("adt") == cadt and pos_f in s["rv"].get("fields", []):
+                            po = s["rv"]["ops"][s["rv"]["fields"].index(pos_f)]
+                            okp = const_value(po) == 0 or (is_place(po) and (lambda t_: bool(t_.origin and t_.origin[0] == "const" and t_.origin[1].get("v") == 0))(trace(b, po)))
+                            ctx.ob(f"G7:reset-keeps-pos-le-len:{b.name}", okp, site(b, bi), f"the cursor pair is built with `{pos_f}` = 0" if okp else f"the cursor pair is built with a `{pos_f}` that is not 0: buf[{pos_f}..{len_f}] can panic with start > end")
         if pos_f is not None:
             def _pos_writes(b_):
                 out = []
                 for bi_, blk_ in enumerate(b_.blocks):
                     for s_ in blk_["stmts"]:
-                        if s_["k"] == "assign" and s_["p"]["pr"] and s_["p"]["pr"][-1]["k"] == "field" and s_["p"]["pr"][-1].get("adt") == adt and s_["p"]["pr"][-1]["name"] == pos_f:
+                        if s_["k"] == "assign" and s_["p"]["pr"] and s_["p"]["pr"][-1]["k"] == "field" and s_["p"]["pr"][-1].get("adt") == cadt and s_["p"]["pr"][-1]["name"] == pos_f:
                             out.append((bi_, s_["rv"]["k"] == "use" and const_value(s_["rv"]["op"]) == 0))
                 return out
             # own methods that leave `pos` at 0 on every path (`clear`): calling one counts as `pos = 0`
             zeroing = set()
             for b in lib.bodies:
-                if b.raw.get("impl_self_adt") != adt or b.nargs < 1 or not b.local_ty(1).startswith("&mut "):
+                if b.raw.get("impl_self_adt") not in owners or b.nargs < 1 or not b.local_ty(1).startswith("&mut "):
                     continue
                 pw = _pos_writes(b)
                 if pw and all(z for _, z in pw) and b.must_pass(0, b.return_blocks(), [bi_ for bi_, _ in pw]):
                     zeroing.add(b.id)
             for b in lib.bodies:
-                if b.raw.get("impl_self_adt") != adt:
+                if b.raw.get("impl_self_adt") not in owners:
                     continue
                 pos_zero = []
                 for bi, t_ in b.calls():
                     f_ = fn_of(t_) or {}
-                    if (f_.get("resolved") or f_.get("def")) in zeroing and t_["args"] and is_place(t_["args"][0]) and b.local_ty(t_["args"][0]["p"]["l"]).startswith("&mut ") and adt.rsplit("::", 1)[-1] in b.local_ty(t_["args"][0]["p"]["l"]):
+                    if (f_.get("resolved") or f_.get("def")) in zeroing and t_["args"] and is_place(t_["args"][0]) and b.local_ty(t_["args"][0]["p"]["l"]).startswith("&mut ") and any(o_.rsplit("::", 1)[-1] in b.local_ty(t_["args"][0]["p"]["l"]) for o_ in owners):
                         pos_zero.append(t_.get("target"))
                 pos_zero = [z for z in pos_zero if z is not None]
                 for bi, blk in enumerate(b.blocks):
                     for s in blk["stmts"]:
-                        if s["k"] == "assign" and s["p"]["pr"] and s["p"]["pr"][-1]["k"] == "field" and s["p"]["pr"][-1].get("adt") == adt and s["p"]["pr"][-1]["name"] == pos_f and s["rv"]["k"] == "use" and const_value(s["rv"]["op"]) == 0:
+                        if s["k"] == "assign" and s["p"]["pr"] and s["p"]["pr"][-1]["k"] == "field" and s["p"]["pr"][-1].get("adt") == cadt and s["p"]["pr"][-1]["name"] == pos_f and s["rv"]["k"] == "use" and const_value(s["rv"]["op"]) == 0:
                             pos_zero.append(bi)
                 for bi, blk in enumerate(b.blocks):
                     for s in blk["stmts"]:
-                        if not (s["k"] == "assign" and s["p"]["pr"] and s["p"]["pr"][-1]["k"] == "field" and s["p"]["pr"][-1].get("adt") == adt and s["p"]["pr"][-1]["name"] == len_f):
+                        if not (s["k"] == "assign" and s["p"]["pr"] and s["p"]["pr"][-1]["k"] == "field" and s["p"]["pr"][-1].get("adt") == cadt and s["p"]["pr"][-1]["name"] == len_f):
                             continue
                         rv = s["rv"]
                         additive = False
